@@ -404,7 +404,12 @@ func genC20(tier string, rng *Rng) []Case {
 			}
 		}
 		if rng.Chance(60, 100) { // make a hit likely
-			rs = append(rs, Rule{Enabled: true, Path: "/*", Dest: "http://dlast.test/l/$1", Type: 1})
+			last := Rule{Enabled: true, Path: "/*", Dest: "http://dlast.test/l/$1", Type: 1}
+			if rng.Chance(40, 100) {
+				// a fallback for the proxied request: what the copy destination does must not decide whether it is used
+				last.Retry = &Rule{Enabled: true, Path: "/*", Dest: "http://dretry.test/r/$1", Type: 1}
+			}
+			rs = append(rs, last)
 		}
 		q := genReqC01(rng)
 		if rng.Chance(70, 100) {
